@@ -17,7 +17,9 @@ MANIFEST = dict(
           "The Boolean specification used as the violation oracle is proved equivalent to the model's acceptance for map-valued results. "
           "Every run executes the real functions on all pairs of slices over a 3-letter alphabet up to length 3 (4 in the thorough tier), "
           "every index in [-1,len+1], predicate/equality/callback families over ints and strings, nil/empty shapes and random slices, "
-          "with a capacity-window mutation probe on every argument, and the compiled Lean model accepts or rejects each observed call."),
+          "with a capacity-window mutation probe on every argument (also of failing Add/Delete calls and of PackPairs; the spare slots beyond "
+          "len of the in-place functions), a result/argument backing-array overlap probe on every non-in-place function that returns a "
+          "slice, and the compiled Lean model accepts or rejects each observed call."),
     note=COMMON_NOTE + (" Go map iteration order is an oracle (results compared up to permutation); append growth capacity of slice.Add is an "
                         "oracle constrained by cap>=len; argument non-modification of the read-only functions holds by construction in the "
                         "functional model and is tied to the code by the dynamic probe; Max/Min/Sum are modelled over unbounded integers "
